@@ -416,6 +416,24 @@ def pass_pipeline(facts):
     return _pipeline_cache[key][1]
 
 
+def item_passes(facts, calls):
+    """[(pass name, PassCall, the item-list argument)] for the recorded calls of one evaluated path that receive the running item
+    list.  A pass reached through thin module-level wrappers (`def resolve_strings(items): return convert_items(..., items, ...)`)
+    is named after the outermost wrapper."""
+    out = []
+    for c in calls:
+        if c.mapped:
+            continue
+        its = [a for a in c.args if isinstance(a, tuple) and a and a[0] == 'items']
+        if not its:
+            continue
+        name = c.via[0] if c.via else c.name
+        if name not in facts.funcs:
+            continue
+        out.append((name, c, its[0]))
+    return out
+
+
 def pipeline(facts):
     """Ordered item passes of `assemble`: [(function name, guard ('always' | 'compress' | 'not compress'), call node, [argument
     texts], None)].  Derived by evaluating the body of assemble for compress = False / True (passorder), so it does not matter
@@ -428,17 +446,18 @@ def pipeline(facts):
     for value in (False, True):
         ref = None
         for calls in pl.paths[value]:
-            cur = [c for c in calls if not c.mapped and c.name in facts.funcs and c.args and c.args[0][0] == 'items']
-            if ref is not None and [c.name for c in cur] != [c.name for c in ref]:
+            cur = item_passes(facts, calls)
+            if ref is not None and [n for n, c, a in cur] != [n for n, c, a in ref]:
                 raise AnalysisError('the pass sequence of assemble differs between paths with the same compress value')
             ref = cur
         seqs[value] = ref or []
     a, b = seqs[False], seqs[True]
     out = []
-    sm = difflib.SequenceMatcher(a=[c.name for c in a], b=[c.name for c in b], autojunk=False)
+    sm = difflib.SequenceMatcher(a=[n for n, c, x in a], b=[n for n, c, x in b], autojunk=False)
 
-    def row(c, guard):
-        return (c.name, guard, c.node, [pshow(x) for x in c.args], None)
+    def row(e, guard):
+        name, c, x = e
+        return (name, guard, c.node, [pshow(x) for x in c.args], None)
     for tag, i1, i2, j1, j2 in sm.get_opcodes():
         if tag == 'equal':
             out.extend(row(c, 'always') for c in b[j1:j2])
